@@ -91,7 +91,9 @@ IDENTITY_RX = [re.compile(x) for x in [
 ]]
 VALUE_IDENTITY = ("clone", "to_vec", "to_owned", "collect", "copied", "cloned", "new", "into_inner", "must_use")
 
-FIELD_TY = r"ark_ff::Fp<"
+FIELD_TY = r"(ark_ff::Fp<P, N>|proto::Fr)"
+FIELD_OP_RX = re.compile(r"<(&'?\w* ?)?" + FIELD_TY + r" as std::ops::(Add|Sub|Mul|Div)(<.*>)?>::(add|sub|mul|div)$")
+FIELD_OPA_RX = re.compile(r"<" + FIELD_TY + r" as std::ops::(Add|Sub|Mul|Div)Assign(<.*>)?>::(add|sub|mul|div)_assign$")
 
 
 def callee_name(t):
@@ -637,7 +639,8 @@ class Engine:
                     mut_idx.append(i)
         target = t["t"]
         # --- summaries (external callees only)
-        if (t.get("resolved") or t.get("callee") or "") in self.fb.items:
+        if (t.get("resolved") or t.get("callee") or "") in self.fb.items and not FIELD_OP_RX.search(name) \
+                and not FIELD_OPA_RX.search(name):
             res = NotImplemented
         else:
             res = self.summary(item, frame, st, trace, t, name, raw_args, mut_idx, site)
@@ -704,6 +707,8 @@ class Engine:
         """semantic summaries of std/arkworks callees. Returns the result term or NotImplemented."""
         V = lambda a: self.value_of(st, a)
         n = len(raw_args)
+        fullname = name
+        name = name.split("@")[0]
         rs = t.get("resolved_substs") or t.get("substs") or ""
         for rx in IDENTITY_RX:
             if rx.search(name) and n >= 1:
@@ -784,18 +789,17 @@ class Engine:
         if re.search(r"^std::result::Result::<T, E>::map_err$", name):
             return ("map_err", V(raw_args[0]))
         # field arithmetic (arkworks Fp)
-        m = re.search(r"<ark_ff::Fp<P, N> as std::ops::(Add|Sub|Mul|Div)(<.*>)?>::(add|sub|mul|div)$", name) or \
-            re.search(r"<&'?\w* ?ark_ff::Fp<P, N> as std::ops::(Add|Sub|Mul|Div)(<.*>)?>::(add|sub|mul|div)$", name)
+        m = FIELD_OP_RX.search(name)
         if m:
             a, b = V(raw_args[0]), V(raw_args[1])
-            op = m.group(3)
+            op = m.groups()[-1]
             if op == "div":
                 trace.append(("oblig", "FieldDiv", (a, b), site, None, None))
             return mk_fop(op, a, b)
-        m = re.search(r"<ark_ff::Fp<P, N> as std::ops::(Add|Sub|Mul|Div)Assign(<.*>)?>::(add|sub|mul|div)_assign$", name)
+        m = FIELD_OPA_RX.search(name)
         if m:
             dst, b = raw_args[0], V(raw_args[1])
-            op = m.group(3)
+            op = m.groups()[-1]
             if isinstance(dst, tuple) and dst and dst[0] == "ref":
                 a = self.load_cell(st, dst[1], dst[2])
                 if op == "div":
@@ -809,8 +813,7 @@ class Engine:
         if name.endswith("as std::cmp::PartialEq>::ne") or re.search(r"as std::cmp::PartialEq<.*>>::ne$", name):
             a, b = V(raw_args[0]), V(raw_args[1])
             return ("un", "Not", mk_eq(a, b))
-        m = re.search(r"as std::cmp::PartialOrd(<.*>)?>::(lt|le|gt|ge)$", name) or \
-            re.search(r"^std::cmp::PartialOrd::(lt|le|gt|ge)$", name)
+        m = re.search(r"std::cmp::PartialOrd.*::(lt|le|gt|ge)$", name)
         if m:
             a, b = V(raw_args[0]), V(raw_args[1])
             return ("cmp", m.groups()[-1], a, b)
